@@ -102,7 +102,7 @@ def damage_programs(rng, flavour, n_hist, exhaustive_cuts=False):
     """histories over one bucket, then the bucket bytes are damaged in a chosen way, then lookups through
     sync and async, then further appends and lookups again"""
     for _ in range(n_hist):
-        keys = [rng.choice(SMALL_KEYS + ["ék", "k\U0001F600"])]
+        keys = [rng.choice(SMALL_KEYS + ["ék", "k\U0001F600"]) if rng.random() < 0.6 else rng.choice(["ék", "k\U0001F600", "ключ", "\u20ac"])]
         nrec = rng.randrange(2, 6)
         recs = []
         for i in range(nrec):
@@ -122,6 +122,9 @@ def damage_programs(rng, flavour, n_hist, exhaustive_cuts=False):
             start = sum(len(r) for r in recs[:j])
             for cut in range(0, len(recs[j]) + 1):
                 variants.append(good[:start] + recs[j][:cut] + b"".join(recs[j + 1:]))
+            # the beginning of the record never reached the disk (every cut through checksum, separator and key)
+            for cut in range(1, min(90, len(recs[j]) - 1)):
+                variants.append(good[:start] + b"\n" + recs[j][1 + cut:] + b"".join(recs[j + 1:]))
         for _ in range(4):
             variants.append(mutate_bucket(rng, recs))
         for v in variants:
@@ -157,6 +160,8 @@ def mutate_bucket(rng, recs):
         b[p:q] = rand_bytes(rng, q - p); recs[j] = bytes(b)
     elif r < 0.92:    # CR games
         recs[j] = recs[j] + rng.choice([b"\r", b"\r\r", b"\r\n"])
+    elif r < 0.96:    # the front of one record is missing
+        recs[j] = b"\n" + recs[j][1 + rng.randrange(1, min(90, len(recs[j]) - 1)):]
     else:             # trailing newline / leading junk
         recs.append(rng.choice([b"\n", b"\n\n", b"junk"]))
     return b"".join(recs)
@@ -619,7 +624,7 @@ def mix_flavours(rng, prog, nbins=3):
     for op in prog:
         op = dict(op)
         o = op["op"]
-        if o in ("damage", "cmptree", "refcheck"):
+        if o in ("damage", "cmptree", "refcheck", "chdir"):
             out.append(op); continue
         if o == "open":
             b = rng.randrange(nbins); owner_w[op["w"]] = b
@@ -688,7 +693,13 @@ def link_programs(rng, flavour, n):
                 prog.append(op)
                 for _ in range(rng.randrange(0, 4)):
                     prog.append({"op": "lchunk", "l": h, "n": rng.choice([0, 1, 8, 100, 16384, 40000])})
+                moved = op.get("rel") and rng.random() < 0.5
+                if moved:
+                    # the caller changes its working directory between opening the linker on a relative path and committing it
+                    prog.append({"op": "chdir", "to": rng.choice(["/", "/usr"])})
                 prog.append({"op": "lcommit" if rng.random() < 0.85 else "ldrop", "l": h})
+                if moved:
+                    prog.append({"op": "chdir", "to": ""})
                 sris.append(hashes.sri(algo, d))
                 h += 1
             if key is not None: keys.append(key)
